@@ -273,11 +273,19 @@ struct Runner {
     using WH = typename G::write_handle;
     using CIt = typename List::const_iterator;
 
+    using WIt = typename List::iterator;
+    using EndIt = typename List::end_iterator;
+
+    // a write handle traverses with `iterator`, a read handle with `const_iterator`; the overload actually called
+    // (operator-> / operator* of the handle, pre / post increment, the four spellings of the end test, operator* /
+    // operator-> of the iterator) rotates with a per-thread counter: they all perform the same primitive operations
     struct Th {
         std::unique_ptr<RH> rh;
         std::unique_ptr<WH> wh;
-        CIt it;
+        CIt cit;
+        WIt wit;
         bool has_it = false;
+        unsigned variant = 0;
     };
 
     static T make(long k)
@@ -289,7 +297,51 @@ struct Runner {
         }
     }
 
-    static bool at_end(Th& t, G& /*g*/) { return t.it == typename List::end_iterator(); }
+    static bool at_end(Th& t, G& /*g*/)
+    {
+        unsigned v = t.variant++ % 4U;
+        if (t.wh) {
+            EndIt e = (v % 2U == 0U) ? (*t.wh)->end() : (**t.wh).end();
+            switch (v) {
+                case 0: return t.wit == e;
+                case 1: return !(t.wit != e);
+                case 2: return e == t.wit;
+                default: return !(e != t.wit);
+            }
+        }
+        EndIt e = (v % 2U == 0U) ? (*t.rh)->end() : (**t.rh).end();
+        switch (v) {
+            case 0: return t.cit == e;
+            case 1: return !(t.cit != e);
+            case 2: return e == t.cit;
+            default: return !(e != t.cit);
+        }
+    }
+    static long deref(Th& t)
+    {
+        unsigned v = t.variant++ % 2U;
+        if (t.wh) {
+            return v == 0U ? value_of(*t.wit) : value_of(*t.wit.operator->());
+        }
+        return v == 0U ? value_of(*t.cit) : value_of(*t.cit.operator->());
+    }
+    static void advance(Th& t)
+    {
+        unsigned v = t.variant++ % 2U;
+        if (t.wh) {
+            if (v == 0U) {
+                ++t.wit;
+            } else {
+                t.wit++;
+            }
+        } else {
+            if (v == 0U) {
+                ++t.cit;
+            } else {
+                t.cit++;
+            }
+        }
+    }
 
     static void prim(G& L, Th& t, const std::string& op)
     {
@@ -328,7 +380,8 @@ struct Runner {
         if (name == "rel") {
             CallScope c(op);
             t.has_it = false;
-            t.it = CIt();
+            t.cit = CIt();
+            t.wit = WIt();
             if (t.rh) {
                 auto* g = &t.rh->m_guard;
                 t.rh.reset();
@@ -341,10 +394,11 @@ struct Runner {
             c.ret();
         } else if (name == "beg") {
             CallScope c(op);
+            unsigned v = t.variant++ % 2U;
             if (t.rh) {
-                t.it = (*t.rh)->begin();
+                t.cit = (v == 0U) ? (*t.rh)->begin() : (**t.rh).begin();
             } else {
-                t.it = CIt((*t.wh)->begin());
+                t.wit = (v == 0U) ? (*t.wh)->begin() : (**t.wh).begin();
             }
             t.has_it = true;
             c.ret();
@@ -353,14 +407,14 @@ struct Runner {
                 return;
             }
             CallScope c(op);
-            ++t.it;
+            advance(t);
             c.ret();
         } else if (name == "der") {
             if (!t.has_it || at_end(t, L)) {
                 return;
             }
             CallScope c(op);
-            long v = value_of(*t.it);
+            long v = deref(t);
             c.ret(std::to_string(v));
         } else if (name == "erc" || name == "ers") {
             if (!t.has_it || at_end(t, L) || !t.wh) {
@@ -368,9 +422,11 @@ struct Runner {
             }
             CallScope c(op);
             if (name == "erc") {
-                t.it = CIt((*t.wh)->erase(t.it));
+                t.wit = (*t.wh)->erase(t.wit);
             } else {
-                (*t.wh)->erase(t.it);  // result dropped: the iterator stays on the erased element
+                CIt pos(t.wit);
+                WIt same(pos);  // the (private) const_iterator -> iterator conversion
+                (*t.wh)->erase(same);  // result dropped: the iterator stays on the erased element
             }
             c.ret();
         } else if (name == "pf" || name == "pb" || name == "ef" || name == "eb") {
@@ -428,7 +484,7 @@ struct Runner {
                 long v = 0;
                 {
                     CallScope c("der");
-                    v = value_of(*t.it);
+                    v = deref(t);
                     c.ret(std::to_string(v));
                 }
                 seen += (seen.empty() ? "" : "/") + std::to_string(v);
@@ -452,7 +508,7 @@ struct Runner {
                 long v = 0;
                 {
                     CallScope c("der");
-                    v = value_of(*t.it);
+                    v = deref(t);
                     c.ret(std::to_string(v));
                 }
                 if (v == want) {
